@@ -18,25 +18,32 @@ package issuelink
 //@ method (*withIssueLink).SafeDetails
 //@   props C03 C11 C12
 //@   ensures len(result) == 2 && result[0] == self.IssueURL && result[1] == self.Detail
+//@   ensures[C03] safeSeq(result)
+
 //@ method (*unimplementedError).Error
 //@   props C10
 //@   ensures result == self.msg
+
 //@ method (*unimplementedError).SafeDetails
 //@   props C03 C11 C12
 //@   ensures len(result) == 2 && result[0] == self.IssueURL && result[1] == self.Detail
+//@   ensures[C03] safeSeq(result)
 
 //@ func WithIssueLink
 //@   props C10 C07 C12
 //@   ensures err == nil ==> result == nil
 //@   ensures err != nil ==> typeis(result, *withIssueLink) && result.(*withIssueLink).cause == err && result.(*withIssueLink).IssueLink == issue
+//@   requires[C03,C12] safeS(issue.IssueURL) && safeS(issue.Detail)
 
 //@ func UnimplementedError
 //@   props C10 C12
 //@   ensures typeis(result, *unimplementedError) && result.(*unimplementedError).msg == msg && result.(*unimplementedError).IssueLink == issueLink
+//@   requires[C03,C12] safeS(issueLink.IssueURL) && safeS(issueLink.Detail)
 
 //@ func UnimplementedErrorf
 //@   props C10
 //@   ensures typeis(result, *unimplementedError) && result.(*unimplementedError).IssueLink == issueLink
+//@   requires[C03,C12] safeS(issueLink.IssueURL) && safeS(issueLink.Detail)
 
 //@ func decodeWithIssueLink
 //@   props C05 C01 C11
@@ -44,16 +51,19 @@ package issuelink
 //@   ensures typeis(result, *withIssueLink) && result.(*withIssueLink).cause == cause
 //@   ensures result.(*withIssueLink).IssueURL == (len(details) > 0 ? details[0] : "")
 //@   ensures result.(*withIssueLink).Detail == (len(details) > 1 ? details[1] : "")
+//@   requires[C03,C12] safeSeq(details)
 
 //@ func decodeUnimplementedError
 //@   props C05 C01 C11
 //@   ensures typeis(result, *unimplementedError) && result.(*unimplementedError).msg == msg
 //@   ensures result.(*unimplementedError).IssueURL == (len(details) > 0 ? details[0] : "")
 //@   ensures result.(*unimplementedError).Detail == (len(details) > 1 ? details[1] : "")
+//@   requires[C03,C12] safeSeq(details)
 
 //@ func IsIssueLink
 //@   props C07 C11
 //@   ensures result == typeis(err, *withIssueLink)
+
 //@ func IsUnimplementedError
 //@   props C07 C11
 //@   ensures result == typeis(err, *unimplementedError)
@@ -65,9 +75,13 @@ package issuelink
 //@   ensures (!typeis(err, *withIssueLink) && !typeis(err, *unimplementedError)) ==> !result1
 
 // ---- GetAllIssueLinks: links of all layers, outermost first (C19) ----
+
 //@ spec func hasLink(e error) bool = typeis(e, *withIssueLink) || typeis(e, *unimplementedError)
+
 //@ spec func linkOf(e error) IssueLink = typeis(e, *withIssueLink) ? e.(*withIssueLink).IssueLink : e.(*unimplementedError).IssueLink
+
 //@ spec func linkCount(e error, k int) int
+
 //@ unfold linkCount(e, k) = k <= 0 ? 0 : linkCount(e, k - 1) + (hasLink(chainAt(e, k - 1)) ? 1 : 0)
 
 //@ func GetAllIssueLinks
@@ -90,3 +104,7 @@ package issuelink
 //@ func HasUnimplementedError
 //@   props C07 C11
 //@   ensures result == typeis(rootOf(err), *unimplementedError)
+
+//@ type withIssueLink invariant[C03,C12] safeS(self.IssueURL) && safeS(self.Detail)
+
+//@ type unimplementedError invariant[C03,C12] safeS(self.IssueURL) && safeS(self.Detail)
